@@ -504,6 +504,7 @@ def fx_matrix_docs():
         "gradient-alpha": {"kind": "gradient", "stops": [[0, [255, 0, 255]], [4096, [0, 255, 0]]], "alpha_stops": [[0, 100], [4096, 0]],
                            "angle": 90, "opacity": 70, "blend": "Scrn"},
         "two": None,
+        "stroke": {"kind": "stroke", "color": [0, 0, 0], "size": 2, "position": "CtrF", "opacity": 100, "blend": "Nrml"},
     }
     for ename, e in effects.items():
         items = [effects["color-multiply-half"], effects["gradient-alpha"]] if e is None else [e]
@@ -512,6 +513,8 @@ def fx_matrix_docs():
                 for carrier in ("pixel", "fill", "fill-vmask", "fill-shape", "group"):
                     for pos in ("plain", "clip-base", "clip-layer"):
                         if (opacity, fillop) == (128, 100) and pos != "plain":
+                            continue
+                        if ename == "stroke" and (carrier == "group" or fillop is not None):
                             continue
                         fx = {"master": True, "items": [dict(i) for i in items]}
                         kw = {"opacity": opacity, "fill": fillop, "effects": fx}
